@@ -436,13 +436,16 @@ let cfg_args spec : ConfigMerge.args =
 let cfg_str n =
   let i = int_of_n n in
   if i = 1000001 then "vpncloud%d" else if i = 1000002 then "3210" else "s" ^ string_of_int i
+(* hook scripts: every fifth id stands for a script text that itself contains colons *)
+let cfg_hs n = let i = int_of_n n in if i mod 5 = 0 then Printf.sprintf "s%d:p:q" i else cfg_str n
+let cfg_ho = function Some n -> cfg_hs n | None -> "-"
 let cfg_o = function Some n -> cfg_str n | None -> "-"
 let cfg_on = function Some n -> string_of_int (int_of_n n) | None -> "-"
 let cfg_l f l = if l = [] then "-" else S.concat "," (L.map f l)
 let cfg_algo n = [| "plain"; "aes128"; "aes256"; "chacha20" |].(int_of_n n)
 let cfg_dump (c : ConfigMerge.config) =
   let open ConfigMerge in
-  let hooks = L.sort compare (L.map (fun (k, v) -> Printf.sprintf "e%d:%s" (int_of_n k) (cfg_str v)) c.hooks) in
+  let hooks = L.sort compare (L.map (fun (k, v) -> Printf.sprintf "e%d:%s" (int_of_n k) (cfg_hs v)) c.hooks) in
   S.concat ";" [
     "dtype=" ^ string_of_int (int_of_n c.device_type); "dname=" ^ cfg_str c.device_name; "dpath=" ^ cfg_o c.device_path;
     "fix=" ^ b2s c.fix_rp_filter; "ip=" ^ cfg_o c.ip; "adv=" ^ cfg_l cfg_str c.advertise; "ifup=" ^ cfg_o c.ifup; "ifdown=" ^ cfg_o c.ifdown;
@@ -499,7 +502,7 @@ let run (op : string) (a : string list) : string option =
           let ok = (match Keys.parse_key32 text with Base.Ok k -> k = key | _ -> false) in
           Printf.sprintf "ok %s pub=%s priv=%s pair=%s new=%s" (hex text) (b2s ok) (b2s ok) (b2s ok) (b2s ok)
         | _ -> "panic")
-  | "genkey" -> Some "ok same=1 printed=1 accepted=1 frompriv=1 trust=1"
+  | "genkey" -> Some "ok same=1 printed=1 accepted=1 frompriv=1 trust=1 mixed=1"
   | "sha512" -> Some (hex (Sha512.sha512 (unhex (arg 0))))
   | "b62enc" -> Some (match Base62.to_base62 (unhex (arg 0)) with Base.Ok s -> "ok " ^ hex s | Base.Err _ -> "err" | Base.Panic _ -> "panic")
   | "b62dec" -> Some (match Base62.from_base62 (unhex (arg 0)) with Base.Ok s -> "ok " ^ hex s | Base.Err _ -> "err" | Base.Panic _ -> "panic")
